@@ -274,6 +274,54 @@ def Sep(item, sep, lo, hi, lead, trail):
                pmax=_pm(lo, hi))
 
 
+def RepUnit(a, lo, hi):
+    if hi.kind == "Inf":
+        rs = f"rep_unit_inf({a.rs}, {lo.rs})"
+    else:
+        rs = f"rep_unit({a.rs}, {lo.rs}, {hi.rs})"
+    return _mk(rs, f"G::RepUnit(&{a.ast}, {lo.ast}, {hi.ast})", f"unit({a.desc}{{{lo.desc},{hi.desc}}})", [a],
+               params=lo.params + hi.params, flags=["rep"], pmax=_pm(lo, hi))
+
+
+def _sepflags(lead, trail):
+    fl = ["sep"]
+    if not (trail.kind == "K" and not trail.v):
+        fl.append("sep_trail")
+    if not (lead.kind == "K" and not lead.v):
+        fl.append("sep_lead")
+    return fl
+
+
+def SepUnit(item, sep, lo, hi, lead, trail):
+    return _mk(f"sep_unit({item.rs}, {sep.rs}, {lo.rs}, {hi.rs}, {lead.rs}, {trail.rs})",
+               f"G::SepUnit(&{item.ast}, &{sep.ast}, {lo.ast}, {hi.ast}, {lead.ast}, {trail.ast})",
+               f"unit({item.desc}.sep_by({sep.desc}){{{lo.desc},{hi.desc}}}[lead={lead.desc},trail={trail.desc}])",
+               [item, sep], params=lo.params + hi.params + lead.params + trail.params, flags=_sepflags(lead, trail),
+               pmax=_pm(lo, hi))
+
+
+def SepCount(item, sep, lo, hi, lead, trail):
+    return _mk(f"sep_count({item.rs}, {sep.rs}, {lo.rs}, {hi.rs}, {lead.rs}, {trail.rs})",
+               f"G::SepCount(&{item.ast}, &{sep.ast}, {lo.ast}, {hi.ast}, {lead.ast}, {trail.ast})",
+               f"count({item.desc}.sep_by({sep.desc}){{{lo.desc},{hi.desc}}}[lead={lead.desc},trail={trail.desc}])",
+               [item, sep], params=lo.params + hi.params + lead.params + trail.params, flags=_sepflags(lead, trail),
+               pmax=_pm(lo, hi))
+
+
+def CollectEx2(a):
+    return _mk(f"collect_ex2({a.rs})", f"G::CollectEx2(&{a.ast})", f"{a.desc}*.collect_exactly[2]", [a], flags=["rep"])
+
+
+def Enum(a, lo, hi):
+    return _mk(f"enum_({a.rs}, {lo.rs}, {hi.rs})", f"G::Enum(&{a.ast}, {lo.ast}, {hi.ast})",
+               f"enumerate({a.desc}{{{lo.desc},{hi.desc}}})", [a], params=lo.params + hi.params, flags=["rep"],
+               pmax=_pm(lo, hi))
+
+
+def Lazy(a):
+    return _mk(f"lazy_({a.rs})", f"G::Lazy(&{a.ast})", f"{a.desc}.lazy()", [a])
+
+
 def Rest():
     return _mk("rest()", "G::Rest", "rest")
 
